@@ -739,9 +739,9 @@ theorem sofFields_p {data : Bytes} {p h w nc : Nat} (hs : sofFields data = some 
 
 def Inv (st : St) : Prop := 0 ≤ st.maxVal
 
-theorem sof55_spec (st : St) (data : Bytes) :
-    (∀ st' s, sof55 st data ≠ .stop st' (.panic s)) ∧ (∀ st', sof55 st data = .cont st' → Inv st') := by
-  unfold sof55
+theorem sof55Core_spec (st : St) (data : Bytes) :
+    (∀ st' s, sof55Core st data ≠ .stop st' (.panic s)) ∧ (∀ st', sof55Core st data = .cont st' → Inv st') := by
+  unfold sof55Core
   cases hs : sofFields data with
   | none => exact ⟨by intro st' s; simp, by intro st' h; cases h⟩
   | some q =>
@@ -753,6 +753,13 @@ theorem sof55_spec (st : St) (data : Bytes) :
     have hcp' : codingParamsPanic (maxValOf p) (0 : Int) = none := by simpa using hcp
     rw [hcp']
     exact ⟨by intro st' s; simp, by intro st' h; injection h with h; subst h; exact hn⟩
+
+theorem sof55_spec (st : St) (data : Bytes) :
+    (∀ st' s, sof55 st data ≠ .stop st' (.panic s)) ∧ (∀ st', sof55 st data = .cont st' → Inv st') := by
+  unfold sof55
+  by_cases hc : st.comps ≠ 0
+  · rw [if_pos hc]; exact ⟨(fun st' s h => by cases h), (fun st' h => by cases h)⟩
+  · rw [if_neg hc]; exact sof55Core_spec st data
 
 theorem codingParamsPanic_zero (mv : Int) (h : 0 ≤ mv) : codingParamsPanic mv (0 : Int) = none := by
   have := codingParamsPanic_none mv 0 h; simpa using this
@@ -842,6 +849,10 @@ theorem header_total (bs : Bytes) (s : Site) : (header bs).2 ≠ .panic s := by
 
 theorem nsof55_inv (st : St) (data : Bytes) (st' : St) (h : nsof55 st data = .cont st') : Inv st' := by
   unfold nsof55 at h
+  by_cases hc : st.comps ≠ 0
+  · rw [if_pos hc] at h; cases h
+  rw [if_neg hc] at h
+  unfold nsof55Core at h
   cases hs : sofFields data with
   | none => rw [hs] at h; cases h
   | some q =>
@@ -913,7 +924,7 @@ theorem nstep_done_total {st st' : St} {bs : Bytes} {o : Res} (hi : Inv st)
     · rcases segTurn_done h with he | ⟨pl, u, hh⟩
       · subst he; simp
       · intro hc; subst hc
-        unfold nsof55 at hh
+        unfold nsof55 nsof55Core at hh
         repeat' split at hh
         all_goals cases hh
     · split at h
